@@ -177,6 +177,67 @@ def main():
                 return False
         return True
 
+    # ---- (1b) objects sent into decorated generators reach the body unchanged (lead worker) ----------------
+    if W.is_lead():
+        import typing as _t
+
+        def drive_async(aw):
+            try:
+                aw.send(None)
+            except StopIteration as e:
+                return e.value
+            raise RuntimeError('suspended')
+        falsy_and_spies = lambda: [0, '', False, (), 0.0, b'', [], {}, spies.SpyList([], _tag='S'), spies.SpyDict({}, _tag='S'),   # noqa: E731
+                                   spies.SpyList([1], _tag='S'), spies.SpySet(set(), _tag='S'), 1, 'x', None, object()]
+        for kind in ('generator', 'asyncgen'):
+            hints_ = ([None, _t.Generator[int, _t.Any, None], _t.Iterator[int], _t.Generator[int, object, None]] if kind == 'generator'
+                      else [None, _t.AsyncGenerator[int, _t.Any], _t.AsyncIterator[int], _t.AsyncGenerator[int, object]])
+            for hi, h in enumerate(hints_):
+                for cname, conf in (('default', beartype.BeartypeConf()), ('is_random=False', beartype.BeartypeConf(is_random=False))):
+                    got = []
+                    if kind == 'generator':
+                        def body():
+                            while True:
+                                got.append((yield 1))
+                    else:
+                        async def body():
+                            while True:
+                                got.append((yield 1))
+                    if h is not None:
+                        body.__annotations__ = {'return': h}
+                    try:
+                        dec = beartype.beartype(conf=conf)(body)
+                    except Exception:
+                        continue
+                    vals = falsy_and_spies()
+                    o = dec()
+                    spies.reset()
+                    try:
+                        if kind == 'generator':
+                            next(o)
+                            for v in vals:
+                                o.send(v)
+                        else:
+                            drive_async(o.__anext__())
+                            for v in vals:
+                                drive_async(o.asend(v))
+                    except Exception as e:   # noqa
+                        W.violation('sent-values:raised:' + kind, f'sending into a decorated {kind} (-> {h}) raised {e!r}', 'directed', hi,
+                                    dict(kind=kind, hint=str(h), conf=cname))
+                        continue
+                    W.count('sent_value_sequences')
+                    W.evaluate(('sent', kind, str(h), cname))
+                    wrong = [(i, short(v, 40), short(g, 40)) for i, (v, g) in enumerate(zip(vals, got)) if g is not v]
+                    if wrong or len(got) != len(vals):
+                        W.violation('sent-value-replaced:' + kind,
+                                    f'objects sent into a decorated {kind} (-> {h}, {cname}) did not reach its body unchanged: '
+                                    f'(position, sent, received) {wrong[:4]}', 'directed', hi, dict(kind=kind, hint=str(h), conf=cname))
+                        continue
+                    bad = [e for e in spies.LOG if e[1] not in spies.READONLY_EVENTS]
+                    if bad:
+                        W.violation('non-readonly-call:' + bad[0][1], f'sending spies into a decorated {kind} (-> {h}) touched them: {bad[:4]}',
+                                    'directed', hi, dict(kind=kind, hint=str(h), conf=cname))
+
     # ---- (2) one-shot subjects with planted items -------------------------------------
     for idx in W.cases('oneshot', limit, frac=.5):
         rng = W.rng('oneshot', idx)
